@@ -51,6 +51,15 @@ def generate(rng, tier):
                         c["xout"] = [(-1) ** (j + 1) * (1.0 + 1.7 * j + 0.1 * abs(v)) for j, v in enumerate(c["xout"])]   # the first point is negative
                         c["desc"]["negative_r"] = True
                         c["desc"].pop("fortran", None)
+                    if Y == 1 and (X + rep) % 2 == 1:
+                        # G(r) on a grid that passes through r = 0 somewhere in the middle (symmetric, or descending to 0): the term is 0 there
+                        k = max(1, len(c["xout"]) // 2)
+                        pos_ = [0.13 + 0.31 * j for j in range(k)]
+                        c["xout"] = ([-v for v in reversed(pos_)] + [0.0] + pos_) if rep % 4 < 2 else (list(reversed(pos_)) + [0.0])
+                        c["int_dtype"] = [c["int_dtype"][0], c["int_dtype"][1], False]
+                        c["desc"]["r0_in_the_middle"] = True
+                        for flag in ("fortran", "int_r_grid", "negative_r", "r0_on_grid"):
+                            c["desc"].pop(flag, None)
                     if (X + Y + rep) % 3 == 1 and c["xin"][0] > 0 and len(c["xin"]) >= 4 and sorted(c["xin"]) == c["xin"]:
                         # a lower limit given as keyword: Qmin of the correction is the first point actually transformed, not the keyword
                         xs_ = c["xin"]
